@@ -81,6 +81,9 @@ def gen(seed: int, tier: str) -> dict[str, Any]:
     cfg["join_first"] = stop_mode == "join_then_stop"
     # stopping = XKNX.stop() (which waits for the queue first) or TelegramQueue.stop() itself with telegrams still pending
     cfg["stop_via"] = "queue" if stop_mode in ("early", "immediately") and rng.random() < 0.4 else "xknx"
+    if cfg["stop_via"] == "xknx" and rng.random() < 0.25:
+        # the same XKNX object is started again after stop() returned and sends a few more telegrams
+        cfg["restart"] = {"n": rng.choice([1, 2, 4]), "gap": rng.choice([0.0, 0.001, 0.3])}
     return {"seed": seed, "tier": "S", "config": cfg, "ops": ops}
 
 
@@ -188,6 +191,26 @@ def run(plan: dict[str, Any]) -> dict[str, Any]:
         if not task.done():
             task.cancel()
             await asyncio.gather(task, return_exceptions=True)
+        elif cfg.get("restart"):
+            rs = cfg["restart"]
+            await asyncio.sleep(rs["gap"])
+            await xknx.start()
+            for j in range(rs["n"]):
+                tg = Telegram(destination_address=GroupAddress(GA_BASE + (j & 3)),
+                              payload=GroupValueWrite(DPTArray(tuple((1000 + j).to_bytes(2, "big")))),
+                              direction=TelegramDirection.OUTGOING)
+                xknx.telegrams.put_nowait(tg)
+
+            async def stopper2():
+                await xknx.stop()
+                info["stop2_ret"] = loop.time()
+
+            task2 = loop.create_task(stopper2())
+            await asyncio.wait([task2], timeout=rs["n"] * (3.1 + (1.0 / cfg["rate_limit"] if cfg["rate_limit"] else 0.0)) + 5.0)
+            info["unfinished2"] = xknx.telegrams._unfinished_tasks
+            if not task2.done():
+                task2.cancel()
+                await asyncio.gather(task2, return_exceptions=True)
         await asyncio.sleep(0.01)
 
     R.execute(main())
@@ -204,12 +227,13 @@ def oracle(R, plan, stub, info, seen_cb, seen_dev, pid_of):
     # hand-offs in queue order, never overlapping, spaced
     ho = [(pid_of(h["raw"]), h) for h in stub.handoffs]
     ho_ids = [p for p, _ in ho]
-    if ho_ids != out_ids[:len(ho_ids)]:
+    if [p for p in ho_ids if p is None or p < 1000] != out_ids[:len([p for p in ho_ids if p is None or p < 1000])]:
         R.violate("C33.order", "handoff-order!=queue-order", f"queued outgoing {out_ids}, handed to interface {ho_ids}")
     for (p1, h1), (p2, h2) in zip(ho, ho[1:]):
         if h1["ret_n"] is None or h1["ret_n"] > h2["n"]:
             R.violate("C33.one-at-a-time", "overlapping-handoffs", f"telegram {p2} handed off before {p1} returned")
-        if rate and h2["t"] - h1["t"] < 1.0 / rate - 1e-9:
+        crosses_restart = p1 is not None and p2 is not None and p1 < 1000 <= p2   # the limiter starts anew with the queue
+        if rate and not crosses_restart and h2["t"] - h1["t"] < 1.0 / rate - 1e-9:
             R.violate("C33.rate-limit", f"spacing<1/{rate}",
                       f"telegrams {p1},{p2} handed off {h2['t'] - h1['t']:.6f}s apart with rate_limit {rate}")
     # one at a time: a telegram is handed over only when the previous send is finished - confirmed by an L_Data.con
@@ -246,6 +270,15 @@ def oracle(R, plan, stub, info, seen_cb, seen_dev, pid_of):
                   f"stop() called at {info['stop_call']}, bound {info.get('bound'):.1f}s, unfinished={info['unfinished']}")
     elif info["unfinished"] != 0:
         R.violate("C33.liveness", "unfinished-tasks-after-stop", f"queue reports {info['unfinished']} unfinished telegrams")
+    if cfg.get("restart") and info["stop_ret"] is not None:
+        R.extra_faults["restart_same_object"] += 1
+        sent2 = [p for p in ho_ids if p is not None and p >= 1000]
+        if info.get("stop2_ret") is None:
+            R.violate("C33.liveness", "stop-did-not-return-after-restart",
+                      f"second stop() of the same XKNX object did not return; unfinished={info.get('unfinished2')}, "
+                      f"telegrams of the second life handed to the interface: {sent2}")
+        elif sent2 != [1000 + j for j in range(cfg["restart"]["n"])]:
+            R.violate("C33.order", "telegrams-after-restart-not-sent-in-order", f"handed to interface {sent2}")
     if rate or cfg["raising_cb"] or cfg["raising_device"] or stopped_early or any(
             (o.get("b") or {}).get("out", "ok") != "ok" or (o.get("b") or {}).get("con") == "never"
             or (o.get("b") or {}).get("lat", 0) >= 2.0 for o in plan["ops"]):
